@@ -12,7 +12,10 @@ import (
 
 // EncodeJSONFile 编码 JSON 文件
 func EncodeJSONFile(path string, obj interface{}) error {
-	f, err := os.OpenFile(path, os.O_CREATE|os.O_TRUNC|os.O_WRONLY, os.ModePerm)
+	// 先完整写入临时文件并落盘，再原子替换目标文件；
+	// 否则进程在截断之后、写完之前崩溃会留下空的或不完整的文件
+	tmp := path + ".tmp"
+	f, err := os.OpenFile(tmp, os.O_CREATE|os.O_TRUNC|os.O_WRONLY, os.ModePerm)
 	if err != nil {
 		return err
 	}
@@ -35,6 +38,9 @@ func EncodeJSONFile(path string, obj interface{}) error {
 	if err := f.Sync(); err != nil {
 		return err
 	}
+	if err := f.Close(); err != nil {
+		return err
+	}
 
-	return nil
+	return os.Rename(tmp, path)
 }
